@@ -191,6 +191,17 @@ def forced_messages(rng):
                             mx.start, mx.is_mux = 62, True
                             m.signals.append(mx)
                         msgs.append(m)
+    # F4 regression (fixed by e3dd3f8 in /repo): 1-bit signals with a factor / an offset / a constraining range
+    m = S()
+    m.name = "MsgF4Regression"
+    m.signals = []
+    for j, (signed, sc) in enumerate([(False, ("2", "0", "0", "0")), (False, ("1", "0.5", "0", "0")), (True, ("1", "0", "0", "1")),
+                                      (False, ("0.1", "-1", "-1", "-0.9"))]):
+        s = make_signal(rng, "Flag%d" % j, 1, signed, j == 3, False)
+        s.factor, s.offset, s.min, s.max = sc
+        s.start = j
+        m.signals.append(s)
+    msgs.append(m)
     for physical in (False, True):
         for enum_like in (0, 1):
             m = S()
@@ -284,8 +295,8 @@ def forced_programs(seed, first_index, tier):
     msgs = forced_messages(rng)
     rng.shuffle(msgs)
     if tier != "quick":
-        # thorough: two more independently drawn copies of the matrix (other scaling/enum/default variants)
-        for extra in (1, 2):
+        # thorough: seven more independently drawn copies of the matrix (other scaling/enum/default variants)
+        for extra in range(1, 8):
             more = forced_messages(random.Random(seed * 104729 + 11 + 7919 * extra))
             for m in more:
                 m.name += "V%d" % extra
@@ -294,7 +305,7 @@ def forced_programs(seed, first_index, tier):
             msgs += more
         rng.shuffle(msgs)
     topo = [(0, "none"), (1, "all"), (2, "mixed"), (3, "none"), (4, "mixed"), (2, "all"), (3, "mixed"), (0, "all")]
-    n_prog = 8 if tier == "quick" else 24
+    n_prog = 8 if tier == "quick" else 48
     per = (len(msgs) + n_prog - 1) // n_prog
     progs = []
     for k in range(n_prog):
@@ -320,9 +331,56 @@ class _Programs:
         return progs + forced_programs(seed, len(progs), self.tier)
 
 
+class _ReplayPrograms:
+    """--replay <file>: the single program of a replay file (its "dbc" member, or a bare .dbc file). The database it
+    denotes is taken to be what the tree's compiler makes of it (the compiler is C05's subject, trusted here)."""
+
+    def __init__(self, text, scratch):
+        self.text, self.scratch = text, scratch
+
+    def gen_batch(self, seed, count):
+        d = os.path.join(self.scratch, "replay")
+        os.makedirs(os.path.join(d, "in"), exist_ok=True)
+        os.makedirs(os.path.join(d, "out"), exist_ok=True)
+        open(os.path.join(d, "in", "p0.dbc"), "w").write(self.text)
+        db = []
+        gen_exe, _ = vlib.build_harness("gen", d)
+        if gen_exe:
+            vlib.sh("ulimit -v 8000000; timeout 300 %s %s %s" % (gen_exe, os.path.join(d, "in"), os.path.join(d, "out")))
+            try:
+                db = open(os.path.join(d, "out", "p0.db")).read().splitlines()
+            except OSError:
+                pass
+        summary = {"messages": 0, "signals": 0, "nodes": 0, "widths": [], "muxed": 0, "float": 0, "scaled": 0, "extended": 0,
+                   "sendtypes": False, "replay": True}
+        return [("p0", self.text, db, summary)]
+
+
+def _fix_compile_culprit(res, scratch, progs):
+    """prepare_batch looks for the package that does not compile with `go vet -overlay`, which fails for EVERY
+    overlay-only package (vet chdirs into the package directory, which exists only in the overlay), so it always
+    blames the first program. Local workaround: find the culprits with `go build -overlay` and replace the entry."""
+    idx = [i for i, v in enumerate(res.violations) if v[0].startswith("generated code does not compile")]
+    if not idx:
+        return
+    ovp = os.path.join(scratch, "overlay-genrun.json")
+    found = []
+    for name, text, _, _ in progs:
+        if not os.path.exists(os.path.join(scratch, "out", name, name + ".dbc.go")):
+            continue
+        rc, out = vlib.sh(["go", "build", "-overlay", ovp, "./verifgen/" + name], cwd=vlib.REPO, env=vlib.go_env(), timeout=300)
+        if rc != 0:
+            found.append(("generated code does not compile (program %s): %s" % (name, out.strip().splitlines()[1][:200] if len(out.strip().splitlines()) > 1 else out[:200]),
+                          {"dbc": text, "compiler_output": out[-1500:], "program": name}, False))
+        if len(found) >= 3:
+            break
+    if found:
+        res.violations[idx[0]:idx[0] + 1] = found
+
+
 def run(res, replay=None):
     vlib.proof_stage(res)
-    count = 10 if res.tier == "quick" else 40
+    count = 10 if res.tier == "quick" else 120
     scratch = vlib.scratch_dir()
     res.corr_obligations = [
         "exported declarations of the generated source (go/parser) = api_decls (api_of_db db) for every batch program",
@@ -331,11 +389,20 @@ def run(res, replay=None):
     ]
     try:
         saved = genfam.genprogs
-        genfam.genprogs = _Programs(res.tier)
+        if replay:
+            raw = open(replay).read()
+            try:
+                text = json.loads(raw)["replay"]["dbc"]
+            except (ValueError, KeyError, TypeError):
+                text = raw
+            genfam.genprogs = _ReplayPrograms(text, scratch)
+        else:
+            genfam.genprogs = _Programs(res.tier)
         try:
             exe, progs, status = genfam.prepare_batch(res, scratch, res.seed, count)
         finally:
             genfam.genprogs = saved
+        _fix_compile_culprit(res, scratch, progs)
         if exe is None:
             if not res.violations:
                 res.violation("batch could not be prepared", {"status": status}, no_input=True)
@@ -354,6 +421,7 @@ def run(res, replay=None):
         texts = {n: t for n, t, _, _ in progs}
         stats = cov = None
         outside = []
+        found = []
         for line in out.splitlines():
             if line.startswith("STATS "):
                 stats = json.loads(line[6:])
@@ -368,12 +436,17 @@ def run(res, replay=None):
                 pkg = toks[1] if len(toks) > 1 else "?"
                 what = ("generated API differs from api_of_db of the database the DBC denotes" if kind == "MISMATCH"
                         else "property predicate fails on the generated API")
-                res.violation("%s: %s ; %s" % (what, obs[:200], detail[:300]),
-                              {"dbc": texts.get(pkg, ""), "observation": obs, "detail": detail, "program": pkg})
+                found.append((0 if kind == "PFAIL" else 1, "%s: %s ; %s" % (what, obs[:200], detail[:300]),
+                              {"dbc": texts.get(pkg, ""), "observation": obs, "detail": detail, "program": pkg}))
+        # property-predicate failures first (they name the violated clause), then model/implementation differences
+        for _, what, rp in sorted(found, key=lambda f: f[0]):
+            res.violation(what, rp)
         if rc != 0 or stats is None or cov is None:
             res.violation("API observation or model driver failed (rc=%s)" % rc, {"stderr": err[-2000:], "stdout_tail": out[-800:]}, no_input=True)
             return
-        if outside:
+        if outside and replay:
+            print("NOTE replayed program is outside in_class43 (DESIGN.md 4.3): the property does not quantify over it")
+        elif outside:
             res.violation("check machinery: sampled programs fall outside in_class43 (generator and Coq class disagree): %s" % outside[:5],
                           {"programs": outside, "dbc": texts.get(outside[0], "")}, no_input=True)
         summ = [s for _, _, _, s in progs]
